@@ -266,6 +266,10 @@ class Oracle:
         else:
             sim.world.probe(f"c17.manifest-{resp.status}")
 
+    def on_readback_unknown(self, actor, directory: str, name: str) -> None:
+        self.sim.check("c17-readback")
+        self.sim.violate("readback-unknown-bytes", "stored", f"the stored file of {directory}/{name} carries payloads of no upload")
+
     def on_readback(self, actor, directory: str, name: str, how: str, url: str, resp: Response, rec: dict) -> None:
         sim = self.sim
         sim.check("c17-readback")
